@@ -529,6 +529,79 @@ void run_fwd_case(Ctx &ctx, int64_t kase, Rng &r, const DomInfo &d) {
     }
     auto &eb = f0.blocks[f0.entry].stmts;
     eb.insert(eb.begin(), pro.begin(), pro.end());
+    // one case in eight is the plain diamond: each arm allocates the only reference of the region
+    // through a different variable; after the join one variable is re-allocated and both are used
+    if (r.chance(1, 8) && ref_vars.size() >= 2 && !i32.empty()) {
+      int R = reg_vars[0];
+      int ra = ref_vars[0], rb = ref_vars[1];
+      if (r.coin()) std::swap(ra, rb);
+      reg_of[ra] = reg_of[rb] = R;
+      f0.blocks.clear();
+      auto blk = [&](const char *n) {
+        Block b;
+        b.name = n;
+        f0.blocks.push_back(b);
+        return (int)f0.blocks.size() - 1;
+      };
+      int b0 = blk("b0"), b1 = blk("b1"), b2 = blk("b2"), b3 = blk("b3");
+      f0.entry = b0;
+      f0.exit = b3;
+      auto S = [&](int b) -> Stmt & {
+        f0.blocks[b].stmts.push_back(Stmt());
+        return f0.blocks[b].stmts.back();
+      };
+      for (int Rv : reg_vars) {
+        Stmt &t = S(b0);
+        t.kind = S_REGION_INIT;
+        t.lhs = Rv;
+      }
+      for (int rv : ref_vars) {
+        Stmt &t = S(b0);
+        t.kind = S_REF_ASSUME;
+        t.op = 0;
+        t.a = rv;
+      }
+      f0.blocks[b0].succs = {b1, b2};
+      if (r.coin()) std::swap(f0.blocks[b0].succs[0], f0.blocks[b0].succs[1]);
+      int arms[2] = {b1, b2}, who[2] = {ra, rb};
+      for (int k = 0; k < 2; ++k) {
+        Stmt &m = S(arms[k]);
+        m.kind = S_MAKE_REF;
+        m.lhs = who[k];
+        m.a = R;
+        m.k = 16;
+        m.id = next_site++;
+        if (r.coin()) {
+          Stmt &st = S(arms[k]);
+          st.kind = S_REF_STORE;
+          st.lhs = who[k];
+          st.a = R;
+          st.b_is_const = true;
+          st.k = r.range(-3, 9);
+        }
+        f0.blocks[arms[k]].succs = {b3};
+      }
+      {
+        Stmt &t = S(b3);
+        t.kind = S_REF_ASSUME, t.op = 1, t.a = rb;
+      }
+      {
+        Stmt &t = S(b3);
+        t.kind = S_REF_STORE, t.lhs = rb, t.a = R, t.b_is_const = true, t.k = 7;
+      }
+      {
+        Stmt &t = S(b3);
+        t.kind = S_MAKE_REF, t.lhs = ra, t.a = R, t.k = 16, t.id = next_site++;
+      }
+      {
+        Stmt &t = S(b3);
+        t.kind = S_REF_STORE, t.lhs = ra, t.a = R, t.b_is_const = true, t.k = r.range(-3, 5);
+      }
+      {
+        Stmt &t = S(b3);
+        t.kind = S_REF_LOAD, t.a = rb, t.b = R, t.lhs = i32[r.below(i32.size())];
+      }
+    }
   }
   fix_widths(p);
   std::vector<int> ints = g.ints, bools = g.bools;
